@@ -34,6 +34,7 @@ func runC12(c *Ctx) {
 
 	c.ruleSendHoldsNothing("C12.send")
 	c.ruleSendUnderNodeLock("C12.held-send")
+	c.ruleRegistryNoBlocking("C12.blocking")
 	c.pairingRule("C12.pairing", func(fn *ssa.Function) bool {
 		pp := PkgPathOf(fn)
 		return pp == PkgRoot || pp == PkgGated
